@@ -2,7 +2,7 @@ SPECIFICATION MCSpec
 CONSTANTS
   BUF = 4
   HEADLOOP = TRUE
-  CARRY = TRUE
+  CARRY = FALSE
   MaxReqs = 2
   MaxBody = 3
   MaxCuts = 3
